@@ -152,7 +152,11 @@ def render(c, chains, pi_group, po_group, pats, clk, rng):
         t.append(f'   "pattern {i}": Call "load_unload" {{ ' + ' '.join(params) + ' }')
         po = ''.join(CH_PO[pat['po'][n.name]] for n in po_group)
         if pat['loc']:
-            t.append(f'   Call "allclock_launch" {{ "_pi"={pi_str(pat, pat["lpulse"])}; }}')
+            # a launch call may carry expected outputs of its own; the responses of the pattern are those of the capture call
+            lpo = ''
+            if rng.random() < 0.5:
+                lpo = ' "_po"=' + ''.join(rng.choice('LHX') for _ in po_group) + ';'
+            t.append(f'   Call "allclock_launch" {{ "_pi"={pi_str(pat, pat["lpulse"])};{lpo} }}')
             t.append(f'   Call "allclock_capture" {{ "_pi"={pi_str(pat, pat["pulse"])}; "_po"={po}; }}')
         else:
             t.append(f'   Call "multiclock_capture" {{ "_pi"={pi_str(pat, pat["pulse"])}; "_po"={po}; }}')
